@@ -152,9 +152,7 @@ func addUnmanaged(rng *rand.Rand, w *World) {
 	e := s.Env
 	name := fmt.Sprintf("unmanaged-%d", len(s.NodeInfo))
 	lbls := map[string]string{corev1.LabelArchStable: v1.ArchitectureAmd64, corev1.LabelOSStable: "linux"}
-	if rng.Intn(10) != 0 {
-		lbls[corev1.LabelHostname] = name
-	}
+	lbls[corev1.LabelHostname] = name // the kubelet always sets it
 	if rng.Intn(5) != 0 {
 		lbls[corev1.LabelTopologyZone] = append(append([]string{}, gen.Zones...), "zone-d")[rng.Intn(4)]
 	}
@@ -482,6 +480,17 @@ func judge(r *mon.Report, w *World, res provscheduling.Results, originals map[ty
 		nsLabels[ns.Name] = ns.Labels
 	}
 	ip := oracle.NewInterPod(nodes, pods, nsLabels)
+	ip.Respect = e.Opts.PreferencePolicy == options.PreferencePolicyRespect
+	for _, p := range pods {
+		if p.Placed {
+			ip.Batch = append(ip.Batch, p.Orig)
+		}
+	}
+	for p := range res.PodErrors {
+		if o := originals[p.UID]; o != nil {
+			ip.Batch = append(ip.Batch, o)
+		}
+	}
 	ante := ip.Antecedents()
 	for k, v := range ante {
 		r.Count(k, v)
